@@ -485,6 +485,19 @@ class SegExtractor(Extractor):
                 self.bools[s.targets[0].id] = d
                 return
             self.bools.pop(s.targets[0].id, None)
+        if isinstance(s, ast.Assign) and len(s.targets) == 1 and isinstance(s.targets[0], ast.Name) and isinstance(s.value, ast.DictComp) \
+                and len(s.value.generators) == 1 and not s.value.generators[0].ifs and isinstance(s.value.generators[0].target, ast.Name) \
+                and isinstance(s.value.generators[0].iter, (ast.Tuple, ast.List)) and all(isinstance(x, ast.Constant) for x in s.value.generators[0].iter.elts):
+            # {band: f(band) for band in ("lf", "ap")}  ->  {"lf": f("lf"), "ap": f("ap")}
+            import copy
+            from .normalize import _Subst
+            g = s.value.generators[0]
+            keys, vals = [], []
+            for c_ in g.iter.elts:
+                keys.append(_Subst({g.target.id: c_}).visit(copy.deepcopy(s.value.key)))
+                vals.append(_Subst({g.target.id: c_}).visit(copy.deepcopy(s.value.value)))
+            s = ast.copy_location(ast.Assign(targets=s.targets, value=ast.copy_location(ast.Dict(keys=keys, values=vals), s.value)), s)
+            ast.fix_missing_locations(s)
         if isinstance(s, ast.Assign) and len(s.targets) == 1 and isinstance(s.targets[0], ast.Name):
             nm = s.targets[0].id
             if isinstance(s.value, ast.Dict) and all(isinstance(k, ast.Constant) for k in s.value.keys):
